@@ -169,6 +169,14 @@ def wl_forged(ctx, config):
         for j in range(nk):
             if j == idx: continue
             t = bytearray(sb); t[33 + 32 * j:65 + 32 * j] = b32(forged[j] + n); vcase(ctx, config, K, bytes(t), "refprover:s+n")
+        # a ring that closes although a forged scalar is exactly 0 (any member other than the signer's): must be rejected
+        if nk >= 2:
+            fz = list(forged)
+            for t in range(nk):
+                if t != idx and rng.random() < 0.6: fz[t] = 0
+            if all(fz[t] for t in range(nk) if t != idx): fz[(idx + 1) % nk] = 0
+            sz = whitelist.forge_sign(K.on, K.off, K.W, idx, K.ring_secret(idx), fz, rng.randrange(1, n))
+            if sz is not None: vcase(ctx, config, K, sz, "refprover:forged_scalar_zero")
         # a chain value R_j = s_j G + e_j K_j forced to the point at infinity (all ring secrets are known here): must be rejected cleanly
         from ref import borromean
         km = whitelist.keys_and_msg(K.on, K.off, K.W)
